@@ -172,6 +172,22 @@ def runOp (op : String) (args : List String) : String :=
     | some st => lenMsg (cm == "1") st items
     | none => "bad-op"
   | "trunc", args => truncOp args
+  | "norm", [t] => match unhex t with
+    | some s => hex (normalizedString s) | _ => "bad-op"
+  | "dedup", recs =>
+    let rs : List Rec := recs.filterMap fun r => match r.splitOn ":" with
+      | [k, t] => match k.toNat?, t.toNat? with
+        | some k, some t => some (k, t)
+        | _, _ => none
+      | _ => none
+    " ".intercalate ((dedup rs).map fun r => s!"{r.1}:{r.2}")
+  | "spec.dedup", recs =>
+    let rs : List Rec := recs.filterMap fun r => match r.splitOn ":" with
+      | [k, t] => match k.toNat?, t.toNat? with
+        | some k, some t => some (k, t)
+        | _, _ => none
+      | _ => none
+    " ".intercalate ((dedupSpec rs).map fun r => s!"{r.1}:{r.2}")
   | "lab.count", [t] => match unhex t with
     | some s => toString (countLabel s) | _ => "bad-op"
   | "lab.split", [t] => match unhex t with
